@@ -9,6 +9,10 @@
 //	S <fnline> <order>                                           a drain point (call of a range-over-func whose body defers)
 //	X <ownerline> <line> <clo> <nargs>                           a defer inside a range-over-func body (explicit defer stack)
 //	K <fnline>                                                   the function evaluates ssa:deferstack()
+//	L <fnline> <order> <line> <clo> <nargs>                      explicit-stack defer without owner (generic instance): loop statement
+//	Z <fnline> <line>                                            explicit-stack defer without owner in a function without recover block: dropped
+//	N <fnline>                                                   the frame is set up in place by a DeferAlways statement whose block does
+//	                                                             not dominate the other defer statements / RunDefers of the function
 //	I <fnline>                                                   a return of the function gets an IMPLICIT RunDefers from
 //	                                                             cl/compile.go returnNeedsImplicitRunDefers (go/ssa emitted none)
 //
@@ -27,10 +31,12 @@ import (
 	"go/token"
 	"go/types"
 	"os"
+	"sort"
 
 	"github.com/goplus/llgo/cl/blocks"
 	llssa "github.com/goplus/llgo/ssa"
 	"golang.org/x/tools/go/ssa"
+	"golang.org/x/tools/go/ssa/ssautil"
 )
 
 type unsafeOnly struct{}
@@ -83,10 +89,32 @@ func main() {
 			visit(af)
 		}
 	}
-	for _, m := range sp.Members {
-		if fn, ok := m.(*ssa.Function); ok {
-			visit(fn)
+	// every function llgo compiles: the members of the package and the INSTANCES of its generic functions (the
+	// generic templates themselves are not compiled)
+	var roots []*ssa.Function
+	for fn := range ssautil.AllFunctions(prog) {
+		if fn.Pkg != sp && (fn.Origin() == nil || fn.Origin().Pkg != sp) {
+			continue
 		}
+		if fn.Parent() != nil || len(fn.Blocks) == 0 {
+			continue // nested functions are visited through their parent
+		}
+		if fn.TypeParams().Len() > 0 && len(fn.TypeArgs()) == 0 {
+			continue // template
+		}
+		if fn.Synthetic != "" && fn.Origin() == nil {
+			continue // wrappers, init
+		}
+		roots = append(roots, fn)
+	}
+	sort.Slice(roots, func(i, j int) bool {
+		if roots[i].Pos() != roots[j].Pos() {
+			return roots[i].Pos() < roots[j].Pos()
+		}
+		return roots[i].Name() < roots[j].Name()
+	})
+	for _, fn := range roots {
+		visit(fn)
 	}
 }
 
@@ -231,24 +259,37 @@ func report(w *bufio.Writer, fset *token.FileSet, fn *ssa.Function) {
 	}
 	first := os.Args[1]
 	fnline := fset.Position(fn.Pos()).Line
-	// defers of a range-over-func body belong to the enclosing syntactic function (cl deferStackOwner)
+	// defers of a range-over-func body belong to the enclosing syntactic function (cl deferStackOwner: walk up while the
+	// function is synthetic). For an INSTANCE of a generic function ("instance of …" is synthetic, no parent) the walk ends
+	// at nil: llgo then falls back to Builder.Defer(DeferInLoop) in the function being compiled — an ordinary loop statement
+	// when that function has a recover block, silently nothing in a yield closure (it has none).
 	owner := fn
 	for owner != nil && owner.Synthetic != "" {
 		owner = owner.Parent()
 	}
-	ownerline := 0
-	if owner != nil {
-		ownerline = fset.Position(owner.Pos()).Line
-	}
 	infos := blocks.Infos(fn.Blocks)
 	order := 0
+	// frame creation: the first of {defer statement, RunDefers, drain point, ssa:deferstack()} in compile order creates the
+	// frame; only a DeferAlways statement creates it IN PLACE in its own block, which then has to dominate all the others
+	var initBlk *ssa.BasicBlock
+	initKnown := false
+	var users []*ssa.BasicBlock
 	for i := 0; i >= 0; i = infos[i].Next {
 		for _, in := range fn.Blocks[i].Instrs {
+			creates, inPlace := false, false
 			switch d := in.(type) {
+			case *ssa.RunDefers:
+				creates = true
 			case *ssa.Call:
-				if drainPoint(d) && fset.Position(fn.Pos()).Filename == first {
-					fmt.Fprintf(w, "S %d %d\n", fnline, order)
-					order++
+				if bi, ok := d.Call.Value.(*ssa.Builtin); ok && bi.Name() == "ssa:deferstack" {
+					creates, inPlace = true, true
+				}
+				if drainPoint(d) {
+					creates = true
+					if fset.Position(fn.Pos()).Filename == first {
+						fmt.Fprintf(w, "S %d %d\n", fnline, order)
+						order++
+					}
 				}
 			case *ssa.Defer:
 				pos := fset.Position(d.Pos())
@@ -256,12 +297,41 @@ func report(w *bufio.Writer, fset *token.FileSet, fn *ssa.Function) {
 					continue
 				}
 				if d.DeferStack != nil {
-					fmt.Fprintf(w, "X %d %d %d %d\n", ownerline, pos.Line, calleeIsClosure(d), len(d.Call.Args))
-					continue
+					if owner != nil {
+						fmt.Fprintf(w, "X %d %d %d %d\n", fset.Position(owner.Pos()).Line, pos.Line, calleeIsClosure(d), len(d.Call.Args))
+						continue
+					}
+					if fn.Recover == nil {
+						fmt.Fprintf(w, "Z %d %d\n", fnline, pos.Line)
+						continue
+					}
+					creates = true
+					fmt.Fprintf(w, "L %d %d %d %d %d\n", fnline, order, pos.Line, calleeIsClosure(d), len(d.Call.Args))
+					order++
+					break
 				}
+				creates = true
+				inPlace = infos[i].Kind == llssa.DeferAlways
 				dom, cyc := blockFacts(fn, fn.Blocks[i])
 				fmt.Fprintf(w, "D %d %d %d %s %d %d %d %d\n", fnline, order, pos.Line, kindName(infos[i].Kind), calleeIsClosure(d), len(d.Call.Args), dom, cyc)
 				order++
+			}
+			if creates {
+				users = append(users, fn.Blocks[i])
+				if !initKnown {
+					initKnown = true
+					if inPlace {
+						initBlk = fn.Blocks[i]
+					}
+				}
+			}
+		}
+	}
+	if initBlk != nil {
+		for _, u := range users {
+			if !initBlk.Dominates(u) {
+				fmt.Fprintf(w, "N %d\n", fnline)
+				break
 			}
 		}
 	}
